@@ -192,22 +192,14 @@ def error_on_none(s):
             a = strip_refs(b.trace(t["args"][0]))
             if a[0] == "call" and a[3] == s.bi:
                 return True
-    # (b) a switch on its discriminant whose None edge returns Err
-    for sb in b.reachable():
-        tt = b.blocks[sb]["term"]
-        if tt["k"] == "SwitchInt":
-            e = b.trace(tt["discr"])
-            if e[0] == "discr":
-                x = strip_refs(e[1])
-                if x[0] == "call" and x[3] == s.bi:
-                    r = switch_edges_for_variant(b, sb, "None")
-                    some = switch_edges_for_variant(b, sb, "Some")
-                    if r and some:
-                        region = b.reachable(r[0]) - b.reachable(some[0])
-                        with b.restricted(region | {r[0]}):
-                            res = strip_refs(b.trace(0))
-                        if res[0] == "agg" and res[1].get("variant") == "Err":
-                            return True
+    # (b) a test of the result (discriminant / is_none / is_some) whose None edge returns Err
+    from .core import option_guards
+    for (sb, t_some, t_none) in option_guards(b, lambda x: x[0] == "call" and x[3] == s.bi):
+        region = b.reachable(t_none) - b.reachable(t_some)
+        with b.restricted(region | {t_none}):
+            res = strip_refs(b.trace(0))
+        if res[0] == "agg" and res[1].get("variant") == "Err":
+            return True
     # (c) map(...) then ok_or_else on the mapped value
     for bi, t in b.calls():
         p = callee_path(t) or ""
